@@ -719,6 +719,15 @@ def check_C18(ctx, rt):
     legacy_pool = [s for s in LEGACY if s not in ("[Xexpl]", "[expl]", "[cexpl]", "[nHexpl]")]
     strings_modern = gens.gen_stay_alive(rt.rng, rt.n(1200, 30000), 30)
     strings_mixed = gens.gen_uniform(rt.rng, modern_pool + legacy_pool * 3, rt.n(1500, 40000), 25)
+    # several '.'-fragments: legacy symbols in the first, in a later, in every, in no fragment (the flag is per call,
+    # not per fragment); '.' also inside the uniform pool
+    strings_mixed += gens.gen_uniform(rt.rng, modern_pool + legacy_pool * 3 + ["."] * 4, rt.n(500, 10000), 25)
+    for _i in range(rt.n(500, 10000)):
+        frs = []
+        for _j in range(rt.rng.randint(2, 4)):
+            pool_j = modern_pool if rt.rng.random() < 0.5 else modern_pool + legacy_pool * 3
+            frs.append("".join(rt.rng.choice(pool_j) for _k in range(rt.rng.randint(1, 8))))
+        strings_mixed.append(".".join(frs))
     try:
         for s in strings_modern:
             ctx.evaluations += 1
@@ -731,7 +740,7 @@ def check_C18(ctx, rt):
             ctx.evaluations += 1
             ctx.distinct.add(s)
             toks = list(sf.split_selfies(s))
-            mod = "".join(oracles.modernize(t) for t in toks)       # independent of selfies.compatibility
+            mod = "".join(t if t == "." else oracles.modernize(t) for t in toks)       # independent of selfies.compatibility
             a = impl.real_decoder(s, compat=True)
             b = impl.real_decoder(mod, compat=False)
             if a != b:
